@@ -29,3 +29,44 @@ class RecCallback:
         from pyvc.api import ghost
 
         ghost(self.name).append(args[0] if len(args) == 1 else args)
+
+
+class RecQueue:
+    """xknx.telegrams stand-in: put_nowait records (ghost 'queue')."""
+
+    def put_nowait(self, telegram):
+        from pyvc.api import ghost
+
+        ghost("queue").append(telegram)
+
+
+class RecManagement:
+    """xknx.management stand-in: process records (ghost 'mgmt'); its own behaviour is C43."""
+
+    def process(self, telegram):
+        from pyvc.api import ghost
+
+        ghost("mgmt").append(telegram)
+
+
+class RecTelegramQueue:
+    """xknx.telegram_queue stand-in: key-issue reports are recorded (ghost 'keyissue')."""
+
+    def received_data_secure_group_key_issue(self, telegram):
+        from pyvc.api import ghost
+
+        ghost("keyissue").append(telegram)
+
+
+class RecEvent:
+    """asyncio.Event stand-in for synchronous code: set/clear are recorded (ghost 'event')."""
+
+    def set(self):
+        from pyvc.api import ghost
+
+        ghost("event").append("set")
+
+    def clear(self):
+        from pyvc.api import ghost
+
+        ghost("event").append("clear")
